@@ -12,14 +12,20 @@ MANIFEST = {
             'publish histories over fork/join DAGs, every inbound context in ALL row orders (joins <=4 parents) vs the '
             'model. Monitors (statement): a join sees the value of the causally latest publisher; order independence '
             'when no concurrent publishers; stored inbound contexts never modified by evaluation. "Evaluation never '
-            'modifies stored contexts" is vacuous in Lean (immutable values): monitor only.',
+            'modifies stored contexts" is vacuous in Lean (immutable values): monitor only. Stream flow (engine '
+            'level): generated programs on the REAL engine under random schedules; the stored inbound context of '
+            'every completed task execution is recomputed by the Lean model from the real rows of the executions '
+            'that triggered it (outbound of each, merged by version) and compared; monitors on the real rows: the '
+            'visible value is the causally latest publisher\'s, else the workflow input; stored contexts of '
+            'completed tasks never change afterwards.',
     'note': 'md5 version-key hashing modelled as identity; YAQL/Jinja evaluation not modelled; flat (non-dict) values '
             'in the proved partial theorems; dict-valued variables covered by correspondence + monitor.',
 }
 RULE = ('stream ctx: generated publish histories over fork/join DAGs (scalar, list and nested dict values), every '
         'inbound context computed by the real data_flow functions in ALL row orders (joins with <=4 parents) and '
         'compared with Mistral.Ctx; non-trivial = a join (>=2 parents) or a non-empty publish; distinct = distinct '
-        'function inputs')
+        'function inputs. Stream flow: generated single-activation programs on the real engine; one evaluation per '
+        'completed task execution with >=1 triggering execution; non-trivial = a join or a publishing task')
 TRUSTED = ['python dict order irrelevant (canonicalised by sorting keys)']
 LEAN_MODULES = ['Mistral.Props.C05']
 
@@ -27,11 +33,20 @@ LEAN_MODULES = ['Mistral.Props.C05']
 def correspond(ctx):
     from vlib import par
     par.run_parallel(ctx, 'harness.ctx_stream', 'run_chunk', [{'n_histories': ctx.n(150, 4000)}] * 14)
+    par.run_parallel(ctx, 'harness.flow_stream', 'run_chunk', [{'n_programs': ctx.n(25, 600)}] * 14)
 
 
 def search(ctx):
-    pass
+    # the monitors of both streams are the oracle; a wider sample of histories
+    from vlib import par
+    par.run_parallel(ctx, 'harness.ctx_stream', 'run_chunk', [{'n_histories': 1500}] * 14)
 
 
 def replay(ctx, rep):
-    pass
+    rep = rep.get('replay', rep)
+    if rep.get('stream') == 'flow':
+        from harness import flow_stream
+        flow_stream.replay(ctx, rep)
+    elif 'history' in rep:
+        from harness import ctx_stream
+        ctx_stream.replay(ctx, rep)
